@@ -44,7 +44,9 @@ void os_abort(void) { __CPROVER_assume(0); }
 
 #include "cmdline/elem.c"
 
-static struct snapraid_extent N[NN];
+/* separate objects, not an array of structs (DESIGN 2.3) */
+static struct snapraid_extent N0, N1, N2, N3, N4, N5, N6;
+static struct snapraid_extent *const N[NN] = { &N0, &N1, &N2, &N3, &N4, &N5, &N6 };
 static struct snapraid_file FILES[3];
 static struct snapraid_disk disk;
 static unsigned char BLOCKS[4 * 64]; /* block vector of the file (elements of block_sizeof() bytes) */
@@ -73,18 +75,18 @@ static void build_tree(void)
 			end = (uint64_t)IN.pos[k] + IN.cnt[k];
 			any = 1;
 		}
-		N[k].file = &FILES[0];
-		N[k].parity_pos = IN.pos[k];
-		N[k].file_pos = IN.fpos[k];
-		N[k].count = IN.cnt[k];
-		N[k].parity_node.data = &N[k];
-		N[k].parity_node.prev = (left_of[k] >= 0 && IN.present[left_of[k]]) ? &N[left_of[k]].parity_node : 0;
-		N[k].parity_node.next = (right_of[k] >= 0 && IN.present[right_of[k]]) ? &N[right_of[k]].parity_node : 0;
+		N[k]->file = &FILES[0];
+		N[k]->parity_pos = IN.pos[k];
+		N[k]->file_pos = IN.fpos[k];
+		N[k]->count = IN.cnt[k];
+		N[k]->parity_node.data = N[k];
+		N[k]->parity_node.prev = (left_of[k] >= 0 && IN.present[left_of[k]]) ? &N[left_of[k]]->parity_node : 0;
+		N[k]->parity_node.next = (right_of[k] >= 0 && IN.present[right_of[k]]) ? &N[right_of[k]]->parity_node : 0;
 	}
 	FILES[0].blockmax = 0xffffffffu;
 	FILES[0].blockvec = (struct snapraid_block *)BLOCKS;
 	FILES[0].sub = "f";
-	disk.fs_parity.root = IN.present[3] ? &N[3].parity_node : 0;
+	disk.fs_parity.root = IN.present[3] ? &N[3]->parity_node : 0;
 	disk.fs_parity.cmp = extent_parity_compare;
 	disk.fs_mutex_enabled = 0;
 	disk.fs_last = 0;
@@ -199,13 +201,13 @@ void h_fs_par2extent(void)
 	for (k = 0; k < NN; ++k)
 		if (IN.present[k] && IN.p >= IN.pos[k] && IN.p - IN.pos[k] < IN.cnt[k])
 			hit = k;
-	disk.fs_last = IN.last >= 0 ? &N[IN.last] : 0;
+	disk.fs_last = IN.last >= 0 ? N[IN.last] : 0;
 	e = fs_par2extent_get_unlock(&disk, &disk.fs_last, IN.p);
-	VERIF_ASSERT(e == (hit >= 0 ? &N[hit] : 0), "the extent returned for a parity position is the one containing it, or none");
+	VERIF_ASSERT(e == (hit >= 0 ? N[hit] : 0), "the extent returned for a parity position is the one containing it, or none");
 	if (hit >= 0)
-		VERIF_ASSERT(disk.fs_last == &N[hit], "the cache of the last extent follows the result");
+		VERIF_ASSERT(disk.fs_last == N[hit], "the cache of the last extent follows the result");
 	else
-		VERIF_ASSERT(disk.fs_last == (IN.last >= 0 ? &N[IN.last] : 0), "a miss leaves the cache alone");
+		VERIF_ASSERT(disk.fs_last == (IN.last >= 0 ? N[IN.last] : 0), "a miss leaves the cache alone");
 
 	f = fs_par2file_find(&disk, IN.p, &fp);
 	VERIF_ASSERT(f == (hit >= 0 ? &FILES[0] : 0), "fs_par2file_find: the file owning the position, or none");
